@@ -29,6 +29,7 @@ STANDARD = {"Rsa": "NULL", "Ed25519": "ABSENT", "Ecdsa": "OID"}
 
 
 def run(ctx):
+    canon.resolve_names(ctx)
     fx = ctx.fx
     adt = fx.adts.get(PK)
     if adt is None:
@@ -42,19 +43,22 @@ def run(ctx):
         [(fl["ty"], "pub" if fl["pub"] else "private") for fl in kid["variants"][0]["fields"]] if kid else None))
     sites = shared.agg_sites(fx, PK)
     hand = [(p, bb, rv) for (p, bb, exp, rv) in sites if not exp]
-    ctx.inst("C12/D1", "single construction site", [p for (p, _, _) in hand] == ["crypto::PublicKey::new"],
+    ctx.inst("C12/D1", "single construction site", len(hand) == 1,
              "hand-written construction sites of PublicKey: %s (derived: %s)" % ([p for (p, _, _) in hand], sorted({p for (p, bb, exp, rv) in sites if exp})))
-    nf = fx.fn_opt("crypto::PublicKey::new")
-    if nf and hand and hand[0][0] == "crypto::PublicKey::new":
+    nf = fx.fn_opt(hand[0][0]) if len(hand) == 1 else None
+    KEYID_FN = None       # the function computing a key's identifier, found as the producer of the constructor's key_id operand
+    if nf:
         nb = body_of(fx, nf["key"])
         ctx.touch_body(nb)
         rv = hand[0][2]
         ops = dict(zip(rv["fields"], rv["ops"]))
         kl = nb.trace(ops["key_id"])
-        okk = len(kl) == 1 and kl[0].kind == "call" and callee_name(kl[0].data[1]) == "crypto::calculate_key_id" and kl[0].path == (OK, F0)
+        okk = len(kl) == 1 and kl[0].kind == "call" and kl[0].path == (OK, F0) and \
+            (kl[0].data[1].get("resolved_key") or kl[0].data[1].get("callee_key")) in fx.fns
         detail = "key_id <- {%s}" % ", ".join(leaf_s(nb, l) for l in kl)
         if okk:
             ct = kl[0].data[1]
+            KEYID_FN = fx.fns[ct.get("resolved_key") or ct.get("callee_key")]
             names = ["typ", "scheme", "keyid_hash_algorithms", "value"]
             same = []
             for ai, fname in enumerate(names):
@@ -72,9 +76,9 @@ def run(ctx):
                 same.append(bool(ra) and ra == rf)
             okk = all(same)
             detail += "; arguments are the operands stored in typ/scheme/keyid_hash_algorithms/value: %s" % same
-        ctx.inst("C12/D1", "key_id = calculate_key_id(the stored typ, scheme, hash algorithms, value)", okk, detail, nf["at"])
+        ctx.inst("C12/D1", "key_id = <key id function>(the stored typ, scheme, hash algorithms, value)", okk, detail, nf["at"])
     else:
-        ctx.bad("C12/D1", "constructor", "crypto::PublicKey::new not found or not the construction site")
+        ctx.bad("C12/D1", "constructor", "no single hand-written construction site of PublicKey")
     # no field assignment to a PublicKey anywhere else
     writes = []
     for f in fx.doc["fns"]:
@@ -99,22 +103,23 @@ def run(ctx):
                 leaks.append((f["path"], rt))
     ctx.inst("C12/D1", "no public function returns &mut PublicKey / &mut KeyId", not leaks, "offenders: %s" % leaks)
     ksites = [(p, exp) for (p, bb, exp, rv) in shared.agg_sites(fx, "crypto::KeyId") if not exp]
-    ctx.inst("C12/D1", "KeyId construction sites", sorted(p for (p, _) in ksites) == ["<crypto::KeyId as std::str::FromStr>::from_str", "crypto::calculate_key_id"],
+    ctx.inst("C12/D1", "KeyId construction sites", sorted(p for (p, _) in ksites) == sorted(["<crypto::KeyId as std::str::FromStr>::from_str"] + ([KEYID_FN["path"]] if KEYID_FN else [])),
              "hand-written construction sites of KeyId: %s" % sorted(p for (p, _) in ksites))
     # ---- D2
-    cf = fx.fn_opt("crypto::calculate_key_id")
-    sf = fx.fn_opt("crypto::shim_public_key")
+    cf = KEYID_FN
+    sf = keys.find_shim_fn(fx)
+    SHIM = sf["path"] if sf else None
     if cf and sf:
         cb = ctx.region(None, policy="private", key=cf["key"])
         # the shim may be built in a module-private helper: look through private callees (shim_public_key itself stays a call)
         from ..cg import inline_region
         from ..core import Body as _B
-        pol = lambda fn: fn["kind"] in ("Fn", "AssocFn") and not fn.get("impl_trait") and fn.get("vis") != "Public" and fn["path"] not in ("crypto::shim_public_key",)
+        pol = lambda fn: fn["kind"] in ("Fn", "AssocFn") and not fn.get("impl_trait") and fn.get("vis") != "Public" and fn["path"] != SHIM
         cb = _B(inline_region(fx, cf["key"], 4, pol))
         ctx.touch_body(cb)
-        sc = cb.calls_named("crypto::shim_public_key")
+        sc = cb.calls_named(SHIM)
         oks = len(sc) == 1
-        detail = "%d shim_public_key call(s)" % len(sc)
+        detail = "%d call(s) of the wire-form builder %s" % (len(sc), SHIM)
         if oks:
             t = sc[0][1]
             roots = [root_ids(cb, a) for a in t["args"][:4]]
@@ -155,13 +160,13 @@ def run(ctx):
         ctx.inst("C12/D2", "shim fields come from the corresponding arguments", oksh, "shims::PublicKey::new(keytype, scheme, hash algorithms, encode(public key), keyid, private)", sf["at"])
         chains = canon.check_derivations(ctx, "C12/D2")
     else:
-        ctx.bad("C12/D2", "calculate_key_id", "not found")
+        ctx.bad("C12/D2", "key id function / wire-form builder", "not found by role (producer of the constructor's key_id; the function calling shims::PublicKey::new)")
     # ---- D3
     keys.check_pubkey_deser(ctx, "C12/D3")
     ser = [g for g in fx.doc["fns"] if g["path"].startswith("<crypto::PublicKey as") and g["path"].endswith("Serialize>::serialize")]
     if len(ser) == 1:
         b = body_of(fx, ser[0]["key"])
-        sc = b.calls_named("crypto::shim_public_key")
+        sc = b.calls_named(SHIM) if SHIM else []
         okse = len(sc) == 1
         if okse:
             t = sc[0][1]
